@@ -10,13 +10,14 @@ from sa.engine.report import Finding, RuleReport
 from sa.rules.c02 import run_walk
 from sa.rules.common import DT, X, implementers
 from sa.schemas import docx as s_docx
+from sa.schemas import html as s_html
 from sa.schemas import odf_misc as s_odf
 from sa.schemas import odt as s_odt
 from sa.schemas import pptx as s_pptx
 
 EXPLANATION = (
     "That cell (i,j) holds the value of source cell (i,j) is value level and not decided as a whole. Decided: (WALK) the table "
-    "walkers of docx, odt, odp and pptx are abstracted to their traversal skeleton and explored against the format's tree "
+    "walkers of docx, odt, odp, pptx and html are abstracted to their traversal skeleton and explored against the format's tree "
     "grammar (see C02-WALK): for every document the grammar generates, every cell element is enumerated exactly once (a row "
     "wrapped in a content control or a header-rows group is not lost, a cell of a nested table is not also counted as a cell of "
     "the outer grid), and inside a cell every visible character-data position is read exactly once and comments never. (KEY) "
@@ -29,7 +30,7 @@ EXPLANATION = (
 )
 NOT_DECIDED = [
     "the value in a cell (numbers, dates, formula results: value level)",
-    "HTML / EPUB tables (dict tree and HTMLParser state machine), RTF tables (regular expressions over control words)",
+    "EPUB tables (HTMLParser state machine), RTF tables (regular expressions over control words)",
     "ragged rows and merged cells (grid geometry is value level)",
     "order of tables in the output",
 ]
@@ -51,6 +52,9 @@ def rule_walk(ctx: Ctx) -> RuleReport:
     for (label, rel, entry, param, schema_fn, skip, caller, cell_kinds, cell_tag, region) in TABLE_WALKS:
         run_walk(ctx, rep, "C13-WALK", label, rel, entry, param, schema_fn, skip, caller,
                  marks={"cell": set(cell_kinds)}, mark_tags={cell_tag: "cell"}, region=frozenset(region), local_root=True)
+    # HTML: the dict-tree walker; cells are td and th
+    run_walk(ctx, rep, "C13-WALK", "html", X + "html_extractor.py", "_HtmlTextExtractor._process_node", "node", s_html.body_schema, frozenset(), "read_html",
+             marks={"cell": {"td", "th"}}, mark_tags={"td": "cell", "th": "cell"}, region=frozenset({"td", "th"}), dict_nodes=True)
     return rep
 
 
